@@ -23,6 +23,7 @@ RULE = (
     "(b) generated ApiVersions tables / brokers that do not answer, then produce and fetch calls through KafkaClient: header "
     "version within the advertised range and in {0,1,2}, body and message magic fit it, reply decoded with the matching decoder, "
     "fallback to 0 after failed discovery; non-trivial = discovery attempted and at least one produce and one fetch completed."
+    " End to end (engines CL and PROD) the client is configured with client ids 'verif', '', a non-ASCII one or None (library default) and the simulated brokers compare the header of every request with the configured id."
 )
 ASSUMPTIONS = [
     "refproto (vlib/refproto.py) is a correct strict implementation of the request grammar; it is self-checked against golden "
